@@ -438,6 +438,7 @@ def check(ctx, report):
     code_point_texts(ctx, report)
     rendering_parses_nothing(ctx, report)
     plain_classes_render(ctx, report)
+    optional_url_parts(ctx, report)
     report.floor('C14.R1', 20, 'iteration obligations')
     report.floor('C14.R4', 15, '_asdict overrides')
 
@@ -930,6 +931,93 @@ def plain_classes_render(ctx, report, RULE='C14.R18'):
                            c.name, ', '.join(private)))
     report.count(RULE, n)
     report.floor(RULE, 1, 'parsable classes with a hand written initialiser')
+
+
+def url_optional_fields():
+    """names of the fields of urllib3's Url that are ``typing.Optional`` (read from the NamedTuple in the dependency's source)"""
+    from ..model import find_dependency
+    dep = find_dependency('urllib3')
+    if dep is None:
+        return None
+    try:
+        with open(os.path.join(dep, 'util', 'url.py')) as f:
+            tree = ast.parse(f.read())
+    except (OSError, SyntaxError):
+        return None
+    out = set()
+    for c in ast.walk(tree):
+        if isinstance(c, ast.ClassDef) and c.name == 'Url':
+            for n in ast.walk(c):
+                if isinstance(n, ast.Tuple) and len(n.elts) == 2 and isinstance(n.elts[0], ast.Constant) and isinstance(n.elts[0].value, str) and \
+                        'Optional' in ast.unparse(n.elts[1]):
+                    out.add(n.elts[0].value)
+    return out
+
+
+def optional_url_parts(ctx, report, RULE='C14.R19'):
+    """The parts of a urllib3 ``Url`` (path, query, fragment, host ...) are None when the text has none - ``mailto:`` has no path.
+    Rendering (and composing) a URL valued component reads them; a part that is sliced, concatenated, measured or asked a string
+    method needs a test or an ``or ''`` first.  Which parts are optional is read from the dependency's source."""
+    report.rule(RULE, 'optional parts of a URL (None when absent) are tested before they are sliced, concatenated or measured')
+    optional = url_optional_fields()
+    if not optional or 'path' not in optional:
+        report.error('%s: the fields of urllib3.util.url.Url could not be read' % RULE)
+        return
+    n = 0
+    for c in ctx.model.repo_classes():
+        if not any(isinstance(x, ast.Attribute) and x.attr == 'Url' for x in ast.walk(c.node)):
+            continue
+        for f in c.methods.values():
+            me = f.node.args.args[0].arg if f.node.args.args else None
+            holders = {'%s.value' % me}
+            for st in ast.walk(f.node):
+                if isinstance(st, ast.Assign) and len(st.targets) == 1 and isinstance(st.targets[0], ast.Name) and ast.unparse(st.value) in holders:
+                    holders.add(st.targets[0].id)
+            parents = {}
+            for p_ in ast.walk(f.node):
+                for ch in ast.iter_child_nodes(p_):
+                    parents[id(ch)] = p_
+            tested = set()
+            for t in ast.walk(f.node):
+                tests = [t.test] if isinstance(t, (ast.If, ast.IfExp, ast.While)) else []
+                for e in tests:
+                    for x in ast.walk(e):
+                        if isinstance(x, ast.Attribute) and x.attr in optional and ast.unparse(x.value) in holders:
+                            tested.add((ast.unparse(x), id(t)))
+            for x in ast.walk(f.node):
+                if not (isinstance(x, ast.Attribute) and x.attr in optional and ast.unparse(x.value) in holders and isinstance(x.ctx, ast.Load)):
+                    continue
+                n += 1
+                text = ast.unparse(x)
+                par = parents.get(id(x))
+                if isinstance(par, ast.BoolOp) and isinstance(par.op, ast.Or) and par.values[0] is x:
+                    continue        # ``part or ''``
+                # inside the body of an ``if`` / the arms of a conditional expression that tests the part
+                up, guarded = x, False
+                while id(up) in parents:
+                    up = parents[id(up)]
+                    if (text, id(up)) in tested:
+                        guarded = True
+                        break
+                if guarded:
+                    continue
+                how = None
+                if isinstance(par, ast.Subscript) and par.value is x:
+                    how = 'sliced'
+                elif isinstance(par, ast.BinOp) and isinstance(par.op, (ast.Add, ast.Mod)):
+                    how = 'concatenated'
+                elif isinstance(par, ast.Attribute) and par.value is x and isinstance(parents.get(id(par)), ast.Call):
+                    how = 'asked .%s()' % par.attr
+                elif isinstance(par, ast.Call) and isinstance(par.func, ast.Name) and par.func.id in ('len', 'list', 'sorted', 'iter') and x in par.args:
+                    how = 'handed to %s()' % par.func.id
+                elif isinstance(par, (ast.For, ast.comprehension)) and par.iter is x:
+                    how = 'iterated'
+                if how:
+                    report.add(RULE, '%s@url-part[%s]' % (f.construct, x.attr),
+                               '%s is %s without a test: it is None for a URL that has no %s (urllib3 gives None for the path of a bare "mailto:"), '
+                               'and rendering the parsed record raises TypeError' % (text, how, x.attr))
+    report.count(RULE, n)
+    report.floor(RULE, 3, 'reads of optional URL parts')
 
 
 def finite_numbers(ctx, report, RULE='C14.R10'):
